@@ -33,6 +33,35 @@ type c10Case struct {
 	// reach, behind an outer layer that appends to every value slice of the response once the call has returned -
 	// then R2. A request is cache-equivalent to itself: both answers must be the same.
 	Between *vlib.Req `json:"in_a_fresh_process_with_this_request_in_between,omitempty"`
+	// Accessors: R1 == R2; the middleware is built and nothing else is called on it before R1; between R1 and R2
+	// only calls that change nothing are made: Config(), SetDebug with the current mode, Wrap of another handler,
+	// a Reconfigure that is rejected
+	Accessors bool `json:"only_accessor_calls_in_between,omitempty"`
+}
+
+func c10JudgeAccessors(k c10Case) *vlib.Failure {
+	m := new(cors.Middleware)
+	if !k.Passthrough {
+		var err error
+		if m, err = cors.NewMiddleware(k.Cfg.Config()); err != nil {
+			return vlib.Failf("configuration of the C10 alphabet rejected: %v", err)
+		}
+		m.SetDebug(k.Debug)
+	}
+	h := m.Wrap(&vlib.Noop{})
+	first := c10Plain(h, k.R1)
+	cfg := m.Config()
+	m.SetDebug(k.Debug && !k.Passthrough)
+	m.Wrap(&vlib.Noop{})
+	bad := cors.Config{Origins: []string{"https://ok.example", "https://not ok.example"}}
+	if err := m.Reconfigure(&bad); err == nil {
+		return vlib.Failf("invalid auxiliary configuration accepted")
+	}
+	_ = m.Config()
+	if second := c10Plain(h, k.R2); second != first {
+		return vlib.Failf("%s is answered\n  %s\nthen Config() (= %+v), SetDebug(%t), Wrap and a rejected Reconfigure are called, and the same request is answered\n  %s", k.R1, first, cfg, k.Debug, second)
+	}
+	return nil
 }
 
 // c10Plain serves r and leaves the response alone.
@@ -180,6 +209,9 @@ func c10Compare(preset []string, r1, r2 vlib.Req, a, b vlib.Resp) *vlib.Failure 
 func c10Judge(k c10Case) *vlib.Failure {
 	if k.Between != nil {
 		return c10JudgeBetween(k)
+	}
+	if k.Accessors {
+		return c10JudgeAccessors(k)
 	}
 	h, inner, m, err := c10BuildM(k.Passthrough, k.Cfg, k.Debug)
 	if err != nil {
@@ -526,6 +558,21 @@ func checkC10(c *vlib.Ctx) (string, string) {
 	if !c.Stopped() {
 		c.ParRange(int64(len(jobs)-nPristine), 1, "C10 jobs after an adversarial history", func(i int64) { runJob(i + int64(nPristine)) })
 	}
+	// calls that change nothing, between two copies of a request, on a middleware nothing else was called on
+	ap := vlib.Product{Sizes: []int{len(cfgs) + 1, 2, len(reqs)}}
+	c.ParRange(ap.Count(), 64, "C10 accessor calls in between", func(i int64) {
+		var tmp [3]int
+		ix := ap.At(i, tmp[:0])
+		k := c10Case{Debug: ix[1] == 1, R1: reqs[ix[2]], R2: reqs[ix[2]], Accessors: true}
+		if ix[0] == len(cfgs) {
+			k.Passthrough = true
+		} else {
+			k.Cfg = cfgs[ix[0]]
+		}
+		c.Transitions.Add(2)
+		ck.Try(k)
+	})
+	c.States.Add(ap.Count())
 	// process histories: one request between two copies of another, in a process of its own
 	kinds := []vlib.Req{
 		{Method: "GET"}, {Method: "OPTIONS"},
